@@ -5,6 +5,7 @@ that (depending on the global STATE) skips the pass, or runs it and records `str
 well-formedness checks on the result.
 """
 import hashlib
+import os
 import re
 import time
 
@@ -391,6 +392,14 @@ class CompileTimeout(BaseException):
 
 def _on_alarm(signum, frame):
     raise CompileTimeout()
+
+
+def load_scale():
+    """>= 1: how much slower than an idle machine this process can expect to be (1-minute load per core, capped)"""
+    try:
+        return min(8.0, max(1.0, os.getloadavg()[0] / max(1, os.cpu_count() or 1)))
+    except OSError:
+        return 1.0
 
 
 def compile_with(src, cfg, state, formats=("bytecode",), limit=60):
